@@ -1217,6 +1217,7 @@ func collectRawHTML(parent *Inline, r *inlineByteReader, end int) {
 
 func collectTextNodes(parent *Inline, r *inlineByteReader, end int, textKind InlineKind, escapes bool) {
 	plainStart := r.pos
+collect:
 	for r.pos < end {
 		curr := r.currentNode()
 		if curr.Kind() == IndentKind {
@@ -1241,18 +1242,37 @@ func collectTextNodes(parent *Inline, r *inlineByteReader, end int, textKind Inl
 		if escapes && curr.Kind() == UnparsedKind {
 			switch r.current() {
 			case '\\':
-				if r.next() && r.pos < end && isASCIIPunctuation(r.current()) {
-					if r.prevPos > plainStart {
-						parent.children = append(parent.children, &Inline{
-							kind: textKind,
-							span: Span{
-								Start: plainStart,
-								End:   r.prevPos, // exclude backslash
-							},
-						})
-					}
-					plainStart = r.pos
+				if !r.next() {
+					break collect
 				}
+				if r.pos >= end || r.jumped() || !isASCIIPunctuation(r.current()) {
+					// A literal backslash.
+					// The character after it is examined on the next iteration
+					// (it may be past the end of the text).
+					if r.jumped() {
+						if r.prevPos >= plainStart {
+							parent.children = append(parent.children, &Inline{
+								kind: textKind,
+								span: Span{
+									Start: plainStart,
+									End:   r.prevPos + 1,
+								},
+							})
+						}
+						plainStart = r.pos
+					}
+					continue
+				}
+				if r.prevPos > plainStart {
+					parent.children = append(parent.children, &Inline{
+						kind: textKind,
+						span: Span{
+							Start: plainStart,
+							End:   r.prevPos, // exclude backslash
+						},
+					})
+				}
+				plainStart = r.pos
 			case '&':
 				if end := parseCharacterEscape(r.remainingNodeBytes()); end >= 0 {
 					if r.pos > plainStart {
